@@ -213,7 +213,7 @@ func mkPkgs(tier string) []Pkg {
 	// special shapes: name mangling collisions, repeated init / blank functions, an interface conversion shared by two functions
 	emit("special_mangling_collision", []string{"type A struct {\n\tv uint64\n}", "func (a A) b__c() uint64 {\n\treturn a.v\n}", "type A__b struct {\n\tv uint64\n}", "func (a A__b) c() uint64 {\n\treturn a.v + 1\n}"}, []string{"A", "A__b", "A__b__c", "A__b__c"})
 	emit("special_two_inits", []string{"var G uint64 = 1", "func init() {\n\tG1()\n}", "func init() {\n\tG1()\n\tG1()\n}", "func G1() uint64 {\n\treturn G\n}"}, []string{"G", "init", "init", "G1"})
-	emit("special_blank_func", []string{"func _() uint64 {\n\treturn 1\n}", "func Real() uint64 {\n\treturn 2\n}"}, []string{"_", "Real"})
+	emit("special_blank_func", []string{"func _() uint64 {\n\treturn 1\n}", "func Real() uint64 {\n\treturn 2\n}", "var _ uint64 = 3", "const _ uint64 = 4"}, []string{"Real"})
 	if tier == "thorough" {
 		emit("special_shared_interface_conversion", []string{"type I interface {\n\tm() uint64\n}", "type St struct {\n\tv uint64\n}", "func (s St) m() uint64 {\n\treturn s.v\n}", "func use(i I) uint64 {\n\treturn i.m()\n}", "func f1() uint64 {\n\treturn use(St{v: 1})\n}", "func f2() uint64 {\n\treturn use(St{v: 2})\n}"}, []string{"I", "St", "St__m", "use", "f1", "f2", "St__to__I"})
 	} else {
